@@ -78,13 +78,16 @@ STYLE_IDS = list(STYLES)
 
 # characters a user cannot type bare and mean literally (they split the word, start a string, a substitution,
 # a comment, a macro ...).  `* ? [ ]` stay allowed: the completer escapes them (glob.escape) on purpose.
-UNQUOTED_FORBIDDEN = set(" \t\n\r\x0b\x0c'\"`$;&|<>(){},!\\")
+UNQUOTED_FORBIDDEN = set(" \t\n\r\x0b\x0c'\"`$;&|<>(){},!#\\")
 _PLAIN_RE = re.compile(r"^[A-Za-z0-9_.\-]+$")
 _CTRL = {"\n": "\\n", "\t": "\\t", "\r": "\\r", "\x0b": "\\x0b", "\x0c": "\\x0c"}
 
 
+LINEBREAKS = "\x1c\x1d\x1e\x85\u2028\u2029"      # what str.splitlines() splits at, besides \n \r \v \f
+
+
 def is_ctrl(ch):
-    return ord(ch) < 0x20 or ord(ch) == 0x7F
+    return ord(ch) < 0x20 or ord(ch) == 0x7F or ch in LINEBREAKS
 
 
 def encode_typed(chars, style, closed):
@@ -120,7 +123,7 @@ def encode_typed(chars, style, closed):
             else:
                 out.append(_CTRL[c])
         elif is_ctrl(c):
-            out.append("\\x%02x" % ord(c))
+            out.append("\\x%02x" % ord(c) if ord(c) < 256 else "\\u%04x" % ord(c))
         else:
             out.append(c)
     return opening + "".join(out)
@@ -160,19 +163,28 @@ def _quote_in_use(style, relpath):
 
 
 def _lexmsg_shape(text):
-    for m in re.finditer(r"\w+", text):
-        c = m.group()[0]
-        if ord(c) > 127 and not c.isidentifier():
-            return True
-    return False
+    """A non-ASCII \\w character that cannot start an identifier (digit-like) occurs (conservative: anywhere)."""
+    return any(ord(c) > 127 and not c.isidentifier() and re.match(r"\w", c) for c in text)
+
+
+_PYLINE_RE = re.compile(r"^(?:[-+%^@]?=|:)(?!=).")
+
+
+def _tilde_eq_shape(relpath):
+    """xonsh (like bash) expands a tilde-prefix at the start of a word that contains `=` and after the first `=`
+    and every following `:`."""
+    pre, eq, post = relpath.partition("=")
+    if not eq:
+        return False
+    return os.path.expanduser(pre) != pre or any(os.path.expanduser(x) != x for x in post.split(":"))
 
 
 def shape_of(name, isdir, relpath, style="none"):
     """Which recorded-finding shapes a directory entry has when completed in the given quote style; relpath is
     the path as the completer sees it."""
     out = set()
-    if name.endswith("\\") and not isdir and not _has_ctrl_completer(relpath):
-        out.add("C18-F1")
+    if name.endswith("\\") and not _has_ctrl_completer(relpath) and (not isdir or "$" in relpath or relpath.startswith("~")):
+        out.add("C18-F1")        # (a directory whose path holds `$`/`~` may be taken for a file: isdir(expand_path(..)))
     if "!" in name and style == "none":
         out.add("C18-F2")
     user_raw = STYLES[style][2]
@@ -187,7 +199,19 @@ def shape_of(name, isdir, relpath, style="none"):
         out.add("C18-F4")
     if style == "none" and _lexmsg_shape(relpath):
         out.add("C18-F6")
+    cand_is_raw = user_raw or (("\\" in relpath or "$" in relpath) and not _has_ctrl_completer(relpath))
+    if "$" in relpath and _has_ctrl_completer(relpath) and not user_raw:
+        out.add("C18-F15")
+    if style == "none" and _PYLINE_RE.match(relpath):
+        out.add("C18-F16")
+    if not cand_is_raw and _tilde_eq_shape(relpath):
+        out.add("C18-F17")
+    if any(c in relpath for c in LINEBREAKS):
+        out.add("C18-F18")
     return out
+
+
+_SPLIT_RE = re.compile(r"[;|]|&&|\band\b|\bor\b|[$!@][(\[]|@[$!]\(")
 
 
 def case_shapes(case):
@@ -201,9 +225,16 @@ def case_shapes(case):
         out |= {f for f in shape_of(case["subdir"], True, case["subdir"], case["style"]) if f in ("C18-F4",)}
     if case["style"] in ("tsq", "tdq") and case.get("closed"):
         out.add("C18-F10")
-    if case["style"] in ("sq", "dq", "tsq", "tdq", "psq", "pdq") and not dirpart and min(case["k"], len(case["name"])) == 0:
+    chars = dirpart + case["name"][:case["k"]]
+    if case["style"] in ("sq", "dq", "tsq", "tdq", "psq", "pdq") and (
+            chars == "" or (len(STYLES[case["style"]][1]) == 1 and chars.endswith(STYLES[case["style"]][1]))):
         out.add("C18-F11")
+    if case["style"] != "none" and not case.get("closed") and _SPLIT_RE.search(chars):
+        out.add("C18-F20")
     if case.get("closed") and not dirpart and case["name"][:case["k"]] in (".", ".."):
+        out.add("C18-F14")
+    if case.get("closed") and not case.get("subdir") and not STYLES[case["style"]][2] and (
+            case["name"] == "~" or any(d[0] == "~" for d in case.get("decoys", []))):
         out.add("C18-F14")
     return out
 
@@ -274,8 +305,8 @@ def build_line(case):
         return None
     if not raw and (chars.startswith("~") and "/" in chars):
         return None          # `~/x` in a non-raw word is the home directory, not a directory named ~
-    if pathlike and rel.startswith("~"):
-        return None          # a p-string always expands a leading ~ (even pr'..'): it cannot name such an entry
+    if pathlike and (rel.startswith("~") or "$" in rel):
+        return None          # a p-string always expands ~ and $NAME (even pr'..'): it cannot name such an entry
     typed = encode_typed(chars, style, closed)
     if typed is None:
         return None
@@ -352,10 +383,18 @@ def _classify_a(case, info, cand, got, kind):
     C18-F6  (lexer) bare candidate whose word starts with a non-ASCII digit-like character: the lexer's error
             message is delivered
     C18-F10 closing TRIPLE quote already after the cursor: not noticed, a second closing quote (+ blank) is inserted
-    C18-F11 nothing typed yet after a non-raw opening quote: the quote itself is taken for the path prefix
+    C18-F11 the text typed after a non-raw opening quote is empty or ends in an (escaped) quote character: not
+            recognised as a partial string, the quote itself is taken for the path prefix
     C18-F12 raw quote opened by the user, name with newline/tab/CR/FF/VT: the escape is written into the raw string
     C18-F13 triple quote opened by the user, file name ending in that quote character: four quotes in a row
-    C18-F14 `./` `../` candidates ignore the opened quote: with the closing quote after the cursor a stray quote is left
+    C18-F14 `./` `../` (and the r'~' candidate for an entry named ~) ignore the opened quote: with the closing quote
+            after the cursor a stray quote is left
+    C18-F15 name with `$NAME` of a defined variable and a control character: written as a non-raw string, expanded
+    C18-F16 bare candidate starting with `=` `-=` `+=` `%=` `^=` `@=` `:`: the completed line is a Python statement
+    C18-F17 name with `=` and a tilde-prefix at the start / after `=` / after `:` written bare or non-raw: expanded
+    C18-F20 still-open quote whose typed content holds a command separator or sub-expression opener: the analyser
+            splits the line there, only the tail is replaced (prefix_len stops short of the opening quote)
+    C18-F18 name with \\x1c \\x1d \\x1e \\x85 \\u2028 \\u2029 (line boundaries for str.splitlines): written literally
     """
     name = case["name"]
     shapes = case_shapes(case)
@@ -369,7 +408,7 @@ def _classify_a(case, info, cand, got, kind):
     cand_q = m.group(2)[0] if m else ""
     for nm, isd in entries:
         relp = info["dirpart"] + nm
-        if nm.endswith("\\") and not isd and cand_raw and not _has_ctrl_completer(relp):
+        if nm.endswith("\\") and cand_raw and "C18-F1" in shape_of(nm, isd, relp, case["style"]):
             nbs = len(nm) - len(nm.rstrip("\\"))
             if isinstance(got, tuple) and got[0] == "SyntaxError" and nbs % 2 == 0:
                 return "C18-F1"
@@ -400,8 +439,19 @@ def _classify_a(case, info, cand, got, kind):
     if "C18-F13" in shapes and kind in ("line-error", "argv-shape", "names-nothing") and cand_q and \
             re.search(re.escape(cand_q) + "{4,} ?$", text):
         return "C18-F13"
-    if "C18-F14" in shapes and kind == "line-error" and text in ("./", "../"):
+    if "C18-F14" in shapes and kind == "line-error" and text in ("./", "../", "r'~'", "r'~/'"):
         return "C18-F14"
+    if "C18-F18" in shapes and kind == "line-error" and any(c in text for c in LINEBREAKS):
+        return "C18-F18"
+    if "C18-F20" in shapes and cand and cand[1] < info["cursor"] - 4 and kind in ("line-error", "argv-shape", "names-nothing"):
+        return "C18-F20"
+    if "C18-F15" in shapes and not cand_raw and cand_q and "$" in text and kind in ("names-nothing", "target-lost", "ambiguous"):
+        return "C18-F15"
+    if "C18-F16" in shapes and not cand_q and kind == "line-error" and _PYLINE_RE.match(text) and \
+            isinstance(got, tuple) and got[0] in ("NameError", "SyntaxError"):
+        return "C18-F16"
+    if "C18-F17" in shapes and not cand_raw and "~" in text and kind in ("names-nothing", "target-lost", "ambiguous", "path-form-differs"):
+        return "C18-F17"
     return None
 
 
@@ -482,21 +532,39 @@ def check_case_a(case):
                         "with one argument" % (new, text, pl, got), (text, pl), got)
         arg = got[0][0]
         probe = arg[len(case["opt"]):] if case.get("opt") and arg.startswith(case["opt"]) else arg
-        if not os.path.lexists(probe):
+        try:
+            exists = os.path.lexists(probe)
+        except ValueError:
+            exists = False
+        if not exists:
             return fail("names-nothing", "completed line %r (candidate %r, prefix_len %d) delivers %r which names no existing entry "
                         "(entries: %r)" % (new, text, pl, arg, sorted(os.listdir(base))), (text, pl), got)
         key = os.path.normpath(probe)
         if key in seen:
-            return fail("ambiguous", "candidates %r and %r both deliver the entry %r" % (seen[key], text, key), (text, pl), got)
+            labels.append("A:two-candidates-for-one-entry")       # not forbidden (e.g. "./~" and r'~')
         seen[key] = text
         if arg in info["want"]:
             hit = True
         elif key == os.path.normpath(info["rel"]):
             return fail("path-form-differs", "completed line %r delivers %r for the entry typed as %r (accepted: %r)"
                         % (new, arg, info["rel"], sorted(info["want"])), (text, pl), got)
-    if not hit and len(cands) <= 10:
-        return fail("target-lost", "line %r cursor %d: path candidates %r name %r but none delivers the generated entry %r"
-                    % (line, cursor, [c[0] for c in cands], sorted(seen), info["rel"]), None, None)
+    if hit:
+        labels.append("A:target-delivered")
+    elif case["name"].startswith(".") and min(case["k"], len(case["name"])) == 0:
+        labels.append("A:target-not-listed(dot-file)")       # $DOTGLOB: not listed for an empty name prefix
+    elif len(cands) <= 10:
+        # The candidate list need not be complete (a typed `r'$HOME` lists the home directory, not a file named $HOME).
+        # What must not happen: the text meant for the generated entry collapses onto a sibling's text.  Decide by
+        # completing once more with the siblings removed.
+        if case.get("decoys"):
+            f2, _nt, lab2 = check_case_a(dict(case, decoys=[]))
+            if f2 is not None:
+                return f2, nontrivial, labels
+            if "A:target-delivered" in lab2:
+                return fail("target-lost", "line %r cursor %d: with the siblings %r present the path candidates %r name %r and none "
+                            "delivers the generated entry %r; without the siblings it is delivered"
+                            % (line, cursor, case["decoys"], [c[0] for c in cands], sorted(seen), info["rel"]), None, None)
+        labels.append("A:target-not-offered")
     return None, nontrivial, labels
 
 
@@ -600,10 +668,27 @@ def repair_known(case, open_ids, stats=None, flip=False):
             name, subdir = fixc(name), fixc(subdir)
         if "C18-F13" in shp:
             name = name + "e"
+        if "C18-F15" in shp:
+            name, subdir = name.replace("$", "S"), subdir.replace("$", "S")
+        if "C18-F16" in shp:
+            name = "e" + name
+        if "C18-F18" in shp:
+            fixl = lambda t: "".join("l" if c in LINEBREAKS else c for c in t)  # noqa: E731
+            name, subdir = fixl(name), fixl(subdir)
+        if "C18-F17" in shp:
+            name, subdir = name.replace("~", "t"), subdir.replace("~", "t")
         if "C18-F10" in shp or "C18-F14" in shp:
             case["closed"] = False
+        if "C18-F20" in shp:
+            m20 = _SPLIT_RE.search(dirpart + name[:case["k"]])
+            if m20 is not None and m20.start() >= len(dirpart):
+                case["k"] = m20.start() - len(dirpart)
+            else:
+                subdir = "s d"
         if "C18-F11" in shp:
-            case["k"] = 1
+            q11 = STYLES[case["style"]][1][0]
+            name = name.replace(q11, "q")
+            case["k"] = max(1, case["k"])
         case["name"], case["subdir"] = name, subdir
         case["k"] = min(case["k"], len(name))
     return None
@@ -866,7 +951,8 @@ def _where(e):
 
 
 def analyse(parser, text, cursor, bound=HANG_S):
-    """-> None when the oracle is satisfied, else (kind, detail)."""
+    """-> None when the oracle is satisfied, else (kind, detail, info); info = the reported command context's
+    prefix / suffix / quotes (for the narrow predicates) or {}."""
     cc = _PB["cc"]
     try:
         _arm(bound)
@@ -881,49 +967,58 @@ def analyse(parser, text, cursor, bound=HANG_S):
         for k in ("p", "p2"):
             if _PB.get(k) is parser:
                 _PB.pop(k)           # its lexer generator was interrupted half-way
-        return "hang@%s" % where, "parse(%r, %d) did not return within %.0f CPU seconds (interrupted in %s)" % (text, cursor, bound, where)
+        return "hang@%s" % where, "parse(%r, %d) did not return within %.0f CPU seconds (interrupted in %s)" % (
+            text, cursor, bound, where), {}
     except BaseException as e:  # noqa: BLE001
         where = _where(e)
         return "exception:%s@%s" % (type(e).__name__, where), "parse(%r, %d) raised %s: %s (in %s)" % (
-            text, cursor, type(e).__name__, str(e)[:120], where)
+            text, cursor, type(e).__name__, str(e)[:120], where), {}
     if r is None:
         return None
     if not isinstance(r, cc.CompletionContext):
-        return "result-type", "parse(%r, %d) returned %r" % (text, cursor, r)
+        return "result-type", "parse(%r, %d) returned %r" % (text, cursor, r), {}
     c, p = r.command, r.python
     if c is None and p is None:
-        return "empty-context", "parse(%r, %d) returned a CompletionContext with neither command nor python" % (text, cursor)
+        return "empty-context", "parse(%r, %d) returned a CompletionContext with neither command nor python" % (text, cursor), {}
     if c is not None:
         if not isinstance(c, cc.CommandContext):
-            return "result-type", "command is %r" % (c,)
-        # continuations are removed on both sides of the comparison: the parser removes them from simple
-        # arguments but reports sub-expression arguments (`$(..)`, `@(..)`) as they stand in the text
-        before, after = strip_cont(text[:cursor]), strip_cont(text[cursor:])
-        want = strip_cont(c.opening_quote + c.prefix + (c.closing_quote if c.is_after_closing_quote else ""))
-        suffix = strip_cont(c.suffix)
-        inside_cont = text[:cursor].endswith("\\") and text[cursor:cursor + 1] == "\n"
-        if not before.endswith(want):
+            return "result-type", "command is %r" % (c,), {}
+        info = {"prefix": c.prefix, "suffix": c.suffix, "opening_quote": c.opening_quote, "closing_quote": c.closing_quote,
+                "after": c.is_after_closing_quote}
+        # Continuations: the parser removes backslash-newline from simple arguments but reports sub-expression
+        # arguments (`$(..)`, `@(..)`) as they stand in the text, and a backslash-newline inside a comment is no
+        # continuation at all.  Accepted: the comparison holds on the text as it stands OR with continuations
+        # removed on both sides.
+        raw_before, raw_after = text[:cursor], text[cursor:]
+        raw_want = c.opening_quote + c.prefix + (c.closing_quote if c.is_after_closing_quote else "")
+        inside_cont = raw_before.endswith("\\") and raw_after[:1] == "\n"
+        ok = raw_before.endswith(raw_want) or strip_cont(raw_before).endswith(strip_cont(raw_want))
+        if not ok and inside_cont:
             # a cursor between the backslash and the newline of a continuation: also accept the reading in
             # which the whole continuation is removed
-            if not (inside_cont and strip_cont(text[:cursor] + "\n").endswith(want)):
-                return "prefix", "parse(%r, %d): text before the cursor %r does not end with opening_quote+prefix%s %r (%r)" % (
-                    text, cursor, before, "+closing_quote" if c.is_after_closing_quote else "", want, c)
-        if not after.startswith(suffix):
-            if not (inside_cont and strip_cont("\\" + text[cursor:]).startswith(suffix)):
-                return "suffix", "parse(%r, %d): text after the cursor %r does not start with suffix %r (%r)" % (
-                    text, cursor, after, c.suffix, c)
+            ok = strip_cont(raw_before + "\n").endswith(strip_cont(raw_want))
+        if not ok:
+            return "prefix", "parse(%r, %d): text before the cursor %r does not end with opening_quote+prefix%s %r (%r)" % (
+                text, cursor, raw_before, "+closing_quote" if c.is_after_closing_quote else "", raw_want, c), info
+        ok = raw_after.startswith(c.suffix) or strip_cont(raw_after).startswith(strip_cont(c.suffix))
+        if not ok and inside_cont:
+            ok = strip_cont("\\" + raw_after).startswith(strip_cont(c.suffix))
+        if not ok:
+            return "suffix", "parse(%r, %d): text after the cursor %r does not start with suffix %r (%r)" % (
+                text, cursor, raw_after, c.suffix, c), info
         if not (0 <= c.arg_index <= len(c.args)):
-            return "arg-index", "parse(%r, %d): arg_index %d outside 0..%d (%r)" % (text, cursor, c.arg_index, len(c.args), c)
+            return "arg-index", "parse(%r, %d): arg_index %d outside 0..%d (%r)" % (text, cursor, c.arg_index, len(c.args), c), info
     if p is not None:
         if not isinstance(p, cc.PythonContext):
-            return "result-type", "python is %r" % (p,)
+            return "result-type", "python is %r" % (p,), {}
         if not (0 <= p.cursor_index <= len(p.multiline_code)) or not text[:cursor].endswith(p.multiline_code[:p.cursor_index]):
             return "python-prefix", "parse(%r, %d): multiline_code[:cursor_index] %r (cursor_index %d) is not a suffix of the text " \
-                "before the cursor" % (text, cursor, p.multiline_code[:max(p.cursor_index, 0)], p.cursor_index)
+                "before the cursor" % (text, cursor, p.multiline_code[:max(p.cursor_index, 0)], p.cursor_index), {}
     return None
 
 
-_FSTR_RE = re.compile(r"(?i)(?<![a-z0-9_])(?:[rbpu]*f[rbpu]*)('|\")")
+_F5_RE = re.compile(r"^(?:[^\S\n]*(?:#[^\n]*)?\n)*\\\n")      # only blank / comment lines, then a backslash-newline at column 0
+_FSTR_RE = re.compile(r"(?i)f[rbpu]*('|\")")
 
 
 def _fstring_newline_shape(text):
@@ -932,10 +1027,11 @@ def _fstring_newline_shape(text):
     return bool(m and re.search(r"[\r\n]", text[m.end():]))
 
 
-def _classify_b(text, cursor, kind, detail):
+def _classify_b(text, cursor, kind, info):
     """Narrow predicates of the recorded Part B findings, evaluated on the failing (text, cursor).
 
-    C18-F5  text whose first token is a backslash-newline: AttributeError in lexer.handle_error_linecont
+    C18-F5  the first token of the text is a backslash-newline at column 0 (only blank/comment lines before it):
+            AttributeError in lexer.handle_error_linecont
     C18-F6  a word starting with a non-ASCII \\w character that cannot start an identifier (non-ASCII digit,
             superscript, fraction ...): the lexer's 'Unexpected token' message becomes the prefix/suffix
     C18-F7  unterminated single-line f-string followed by a newline: the tolerant tokenizer loops for ever
@@ -943,24 +1039,22 @@ def _classify_b(text, cursor, kind, detail):
             character from behind the continuation
     C18-F9  cursor inside the closing triple quote of a closed string (after its 1st or 2nd character): reported as
             if it stood inside the string value
+    C18-F19 cursor inside a sub-expression opener (`$(` `![` `@(` ...) that directly follows a continuation glued to a
+            word: the cursor offset is taken on the unprocessed text, the prefix swallows the rest of the opener
     """
-    if kind.startswith("exception:AttributeError@lexer.py:handle_error_linecont") and re.match(r"^[ \t\x0c]*\\\n", text):
+    if kind.startswith("exception:AttributeError@lexer.py:handle_error_linecont") and _F5_RE.match(text):
         return "C18-F5"
-    if kind in ("prefix", "suffix") and _lexmsg_shape(text):
-        m = re.search(r"prefix=(\'(?:[^\'\\\\]|\\\\.)*\'|\"(?:[^\"\\\\]|\\\\.)*\"), suffix=(\'(?:[^\'\\\\]|\\\\.)*\'|\"(?:[^\"\\\\]|\\\\.)*\"), opening_quote=", detail)
-        try:
-            joined = ast.literal_eval(m.group(1)) + ast.literal_eval(m.group(2)) if m else ""
-        except Exception:  # noqa: BLE001
-            joined = ""
-        if _LEXMSG in joined:
-            return "C18-F6"
+    if kind in ("prefix", "suffix") and _lexmsg_shape(text) and _LEXMSG in (info.get("prefix", "") + info.get("suffix", "")):
+        return "C18-F6"
     if kind == "hang@tokenize.py:_tokenize" and _fstring_newline_shape(text):
         return "C18-F7"
     if kind in ("prefix", "suffix") and cursor > 0 and text[cursor - 1:cursor + 1] == "\\\n":
         return "C18-F8"
-    if kind in ("prefix", "suffix") and _inside_closing_triple(text, cursor) and re.search(
-            r"closing_quote=(?:'\"\"\"'|\"'''\"), is_after_closing_quote=False", detail):
+    if kind in ("prefix", "suffix") and _inside_closing_triple(text, cursor) and len(info.get("closing_quote", "")) == 3 \
+            and not info.get("after"):
         return "C18-F9"
+    if kind in ("prefix", "suffix") and re.search(r"\\\n\S*[@$!]$", text[:cursor]) and text[cursor:cursor + 1] in ("(", "[", "$", "!"):
+        return "C18-F19"
     return None
 
 
@@ -988,8 +1082,8 @@ def check_case_b(case, tolerate=(), stats=None, bound=HANG_S):
         r = analyse(p, text, cur, bound=bound)
         if r is None:
             continue
-        kind, detail = r
-        fid = _classify_b(text, cur, kind, detail)
+        kind, detail, info = r
+        fid = _classify_b(text, cur, kind, info)
         if fid is not None and fid in tolerate:
             if stats is not None:
                 stats.excluded_known[fid] += 1
@@ -1007,8 +1101,8 @@ def check_case_b(case, tolerate=(), stats=None, bound=HANG_S):
             _PB.pop("p", None)
             return Failure("state-leak:" + kind, {"part": "B", "text": text, "cursor": cur, "prev": _PB.get("prev")},
                            "reused parser only (previous input %r): %s" % (_PB.get("prev"), detail), bucket="state-leak:" + kind)
-        kind, detail = r2
-        fid = _classify_b(text, cur, kind, detail)
+        kind, detail, info = r2
+        fid = _classify_b(text, cur, kind, info)
         return Failure(kind, {"part": "B", "text": text, "cursor": cur}, detail, finding=fid, bucket=fid or kind)
     _PB["prev"] = text
     return None
@@ -1045,6 +1139,9 @@ def worker_b(arg):
 
     def body(text):
         if budget[0] <= 0:
+            return
+        if text.startswith("\ufeff"):
+            st.discards += 1             # a leading byte-order mark is an encoding marker for the tokenizer, not text
             return
         ex = _b_excluded(text, open_ids)
         if ex:
